@@ -565,3 +565,80 @@ theorem wake_qw2 (P : Prog) (c d : Cfg) (e : Ev) (h : isWake e = true) (hl : QW2
       | false => exact tickCb_usercb_qw2 c d hl
       | true => cases h
   | _ => cases h
+
+/-! ### pause and play in phase `QW2` -/
+
+theorem unint_same (c : Cfg) : sh (unint c) = sh c ∧ (unint c).pc = c.pc ∧ (unint c).interrupt = c.interrupt ∧
+    (unint c).actions = c.actions ∧ (unint c).paused = c.paused := by
+  cases c
+  rename_i st _ _ _ _ _ _ _ _ _ _ _ _ _ _ _ _ _ _ _ _ _ _ _ _
+  cases st <;> try exact ⟨rfl, rfl, rfl, rfl, rfl⟩
+  simp only [unint]
+  split <;> exact ⟨rfl, rfl, rfl, rfl, rfl⟩
+
+def unintSt (s : SObj) (w : List WF) : SObj × List WF :=
+  match s with
+  | .waiting fn wf wk aw =>
+      match w[wf]? with
+      | some (.interrupted _) => (.waiting fn wf none aw, setAt w wf (wk.getD .pending))
+      | _ => (s, w)
+  | _ => (s, w)
+
+theorem unint_stw_eq (c : Cfg) : (unint c).st = (unintSt c.st c.wfs).1 ∧ (unint c).wfs = (unintSt c.st c.wfs).2 := by
+  cases c
+  rename_i st _ _ _ _ _ _ _ wfs _ _ _ _ _ _ _ _ _ _ _ _ _ _ _ _
+  cases st <;> try exact ⟨rfl, rfl⟩
+  rename_i fn wf wk aw
+  cases hq : wfs[wf]? with
+  | none => simp only [unint, unintSt, hq]; exact ⟨trivial, trivial⟩
+  | some w => cases w <;> (simp only [unint, unintSt, hq]; exact ⟨trivial, trivial⟩)
+
+theorem unint_stw (c c' : Cfg) (h1 : c'.st = c.st) (h2 : c'.wfs = c.wfs) :
+    (unint c').st = (unint c).st ∧ (unint c').wfs = (unint c).wfs := by
+  rw [(unint_stw_eq c').1, (unint_stw_eq c').2, (unint_stw_eq c).1, (unint_stw_eq c).2, h1, h2]
+  exact ⟨rfl, rfl⟩
+
+theorem unint_pframe {c c' : Cfg} (f : PFrame c c') : PFrame (unint c) (unint c') := by
+  obtain ⟨s1, s2⟩ := unint_stw c c' f.2.1 f.2.2.1
+  exact ⟨by rw [(unint_same c').1, (unint_same c).1]; exact f.1, s1, s2,
+    by rw [(unint_same c').2.1, (unint_same c).2.1]; exact f.2.2.2⟩
+
+theorem QW2.stepping {c d : Cfg} (h : QW2 c d) : c.stepping = true ∧ c.paused = none ∧ c.killing = none ∧ IntOk c := by
+  obtain ⟨fn, wf, aw, wk, k, hst, hw, hpc, hp, hi⟩ := h.shape
+  obtain ⟨u1, u2, u3, u4, u5⟩ := unint_same c
+  have hr := h.view.run (by rw [u2, hpc]; rfl)
+  have hs := (sh_fields u1).1
+  have hk := (sh_fields u1).2.2.2.2.2.2.2.2.2.2.2.2.2.2
+  exact ⟨by rw [← hs]; exact hr.1, by rw [← u5]; exact hr.2, by rw [← hk]; exact h.view.core.ckill,
+    h.view.intOk.of_eq u3.symm u4.symm⟩
+
+theorem QW2.frame {c c' d : Cfg} (h : QW2 c d) (f : PFrame c c') (hi : c'.interrupt ≠ none) (hio : IntOk c')
+    (hp : c'.paused = none) : QW2 c' d := by
+  obtain ⟨fn, wf, aw, wk, k, hst, hw, hpc, hpk, _⟩ := h.shape
+  obtain ⟨u1, u2, u3, u4, u5⟩ := unint_same c'
+  refine ⟨⟨fn, wf, aw, wk, k, by rw [f.2.1]; exact hst, by rw [f.2.2.1]; exact hw, by rw [f.2.2.2]; exact hpc, hpk, hi⟩, ?_⟩
+  refine h.view.frame (unint_pframe f) (hio.of_eq u3 u4) ?_ (fun _ => by rw [u5]; exact hp)
+  intro hr
+  rw [(unint_same c).2.1, hpc] at hr
+  cases hr
+
+theorem pause_qw2 (c d : Cfg) (h : QW2 c d) : QW2 (pause c).1 d := by
+  obtain ⟨hs, hpn, hk, hio⟩ := h.stepping
+  obtain ⟨fn, wf, aw, wk, k, hst, hw, hpc, hpk, hi⟩ := h.shape
+  rcases pause_shape c hk with b | ⟨hs', _⟩ | ⟨_, _, b⟩
+  · exact h.frame b.1 (by rw [b.2.1]; exact hi) (hio.of_eq b.2.1 b.2.2.1) (by rw [b.2.2.2]; exact hpn)
+  · rw [hs] at hs'; cases hs'
+  · obtain ⟨r1, r2, r3, r4, r5, r6, r7⟩ := requestInterrupt_props c
+    have hwfs : (requestInterrupt c .pause).wfs = c.wfs := by
+      rcases r7 with hw2 | ⟨fn2, wf2, wk2, aw2, hst2, hpend, _⟩
+      · exact hw2
+      · rw [hst] at hst2; cases hst2
+        rw [hw] at hpend; cases hpend
+    have h1 := h.frame ⟨r1, r2, hwfs, r3⟩ r6 r5 (by rw [r4]; exact hpn)
+    exact h1.frame b.1 (by rw [b.2.1]; exact r6) (r5.of_eq b.2.1 b.2.2.1) (by rw [b.2.2.2, r4]; exact hpn)
+
+theorem play_qw2 (c d : Cfg) (h : QW2 c d) : QW2 (play c).1 d := by
+  obtain ⟨_, _, _, hio⟩ := h.stepping
+  obtain ⟨fn, wf, aw, wk, k, hst, hw, hpc, hpk, hi⟩ := h.shape
+  obtain ⟨f, hi', hio', hp⟩ := play_shape c
+  exact h.frame f (by rw [hi']; exact hi) (hio' hio) hp
